@@ -5,6 +5,7 @@ From FB Require Import Lib.Bytes Gen.RustDispatch Model.Server Model.ServerCmp S
   Proofs.ServerPerform Proofs.ServerReply Proofs.ServerDecide Proofs.ServerHandle
   Proofs.ServerDispatch Proofs.ServerEncode Proofs.ServerEncodeDir Proofs.ServerEncodeLift.
 From FB Require Import Spec.WfReq Model.Notify Spec.Notify Proofs.ServerEndToEnd Proofs.NotifyProofs.
+From FB Require Lib.RustExpr Gen.RustPure Proofs.RustPure Proofs.RustPureServer.
 Import ListNotations.
 Local Open Scope string_scope.
 Local Open Scope list_scope.
@@ -391,6 +392,23 @@ Proof.
   vm_compute. repeat split; reflexivity.
 Qed.
 
+(* ---- tie to the source text (Gen/RustPure.v is re-translated from src/api/server/sync_io.rs on every run): the size
+   arithmetic of add_dirent (size_of::<Dirent>() + name length, padded to 8, + size_of::<EntryOut>() for readdirplus; the
+   entry is skipped with Ok(0) iff max.saturating_sub(bytes_written) < total) is [pad8] / [dirent_total] / the skip test
+   of [fill_dirents]; the struct sizes are recomputed from src/abi on every run *)
+Theorem C03_src_add_dirent : forall max nl plus written,
+  max < 4294967296 -> nl <= 4294967295 -> written < 18446744073709551616 ->
+  RustExpr.eval_fn RustExpr.Debug RustPure.add_dirent_src
+    [RustExpr.VInt RustExpr.U32 max; RustExpr.VInt RustExpr.Usize nl; RustExpr.VBool plus; RustExpr.VInt RustExpr.Usize written] =
+  RustPureServer.add_dirent_spec (pad8 (24 + nl) + (if plus then 128 else 0)) max written.
+Proof. exact RustPureServer.src_add_dirent_server. Qed.
+Theorem C03_src_add_dirent_long_name : forall max nl plus written,
+  max < 4294967296 -> 4294967295 < nl -> nl < 18446744073709551616 -> written < 18446744073709551616 ->
+  RustExpr.eval_fn RustExpr.Debug RustPure.add_dirent_src
+    [RustExpr.VInt RustExpr.U32 max; RustExpr.VInt RustExpr.Usize nl; RustExpr.VBool plus; RustExpr.VInt RustExpr.Usize written] =
+  RustExpr.Val (RustExpr.VErr (RustExpr.VInt RustExpr.I32 75)).
+Proof. exact RustPureServer.src_add_dirent_long_name. Qed.
+
 Print Assumptions C03_errno_negated.
 Print Assumptions C03_error_kind_table.
 Print Assumptions C03_error_kind_valid.
@@ -434,3 +452,5 @@ Print Assumptions C03_notify_too_big.
 Print Assumptions C03_notify_msg_ok.
 Print Assumptions C03_notify_len.
 Print Assumptions C03_notify.
+Print Assumptions C03_src_add_dirent.
+Print Assumptions C03_src_add_dirent_long_name.
